@@ -225,7 +225,7 @@ fn embedded(v: u64) -> Option<Violation> {
 }
 
 pub fn run(ctx: &Ctx) {
-    ctx.set_rule("every value is submitted through every integer type that can carry it (u8,u16,u32,u64,usize) and compared with the specification rule (00 / 01 / 0A b / 0B w / 0C d / 0E q, little endian) and decoded back by an independent decoder. Exhaustive: all u8, all u16 (quick and thorough), all u32 (thorough); sampled: width boundaries +-3, single bits, byte fills, random u32/u64; embedded operands (Name, Package, OpRegion). Non-trivial = value not in {0,1} whose little-endian bytes are not a palindrome, or within +-2 of a width boundary; distinct = distinct values. Integers are also written into the package builder (add_element) and into the generic table, the crate's own two sinks.");
+    ctx.set_rule("every value is submitted through every integer type that can carry it (u8,u16,u32,u64,usize) and compared with the specification rule (00 / 01 / 0A b / 0B w / 0C d / 0E q, little endian) and decoded back by an independent decoder. Exhaustive: all u8, all u16 (quick and thorough), all u32 (thorough); sampled: width boundaries +-3, single bits, byte fills, random u32/u64; embedded operands (Name, Package, PackageBuilder, OpRegion, buffer sizes). Non-trivial = value not in {0,1} whose little-endian bytes are not a palindrome, or within +-2 of a width boundary; distinct = distinct values. Integers are also written into the package builder (add_element) and into the generic table, the crate's own two sinks.");
     let mut evals = 0u64;
     let mut nontriv: u64 = 0;
     let mut vs: Vec<(u64, Violation)> = Vec::new();
@@ -252,24 +252,11 @@ pub fn run(ctx: &Ctx) {
             vs.push((v, x));
         }
     }
-    // integers the crate derives itself and hands to the encoder: EISA ids (any width the value
-    // needs) and the size of a data buffer
-    for id in ["PNP0000", "PNP0001", "PNP00FF", "PNP0100", "PNP0A03", "AAA0000", "ABC0000", "ZZZ0000", "ACP0010", "ZZZFFFF"] {
-        let v = crate::aml::term::eisa_value(id);
-        let mut e2 = [0u8; 9];
-        let n2 = expected(v, &mut e2);
-        let got = std::panic::catch_unwind(|| {
-            let mut b = Vec::new();
-            aml::EISAName::new(id).to_aml_bytes(&mut b);
-            b
-        });
-        evals += 1;
-        if let Ok(b) = got {
-            if b != e2[..n2] {
-                vs.push((v, Violation::new("C08", "integer", "int-encoding", "embedded:EISAName".into(), format!("id={} value={:#x} got={:02x?} want={:02x?}", id, v, b, &e2[..n2]))));
-            }
-        }
-    }
+    // An integer the crate derives itself and hands to the encoder: the size of a data buffer.
+    // (EISA ids are NOT judged here: C16 only asks for an integer constant whose 32-bit value
+    // decompresses to the identifier, and ASL's EisaId() is a DWordConst, so a crate that always
+    // emitted 0C + four bytes would keep both properties. An earlier version of this check demanded
+    // the narrowest form for them and was a false alarm on such a crate -- DESIGN 12.4.)
     for n in [0usize, 1, 2, 255, 256, 257, 65_535, 65_536, 65_537, 65_791, 70_000] {
         let mut e2 = [0u8; 9];
         let n2 = expected(n as u64, &mut e2);
